@@ -43,7 +43,7 @@ ASSUMPTIONS = [
 ]
 BUDGET = {'quick': 4000, 'thorough': 48000}
 FLOOR = {'quick': 60, 'thorough': 2000}
-NSS = ['/', '/a', '/ref', '/zzz']
+NSS = ['/', '/a', '/ref', '/zzz', '/kick']
 BAD = ['', '9', '2', '2[', '2[]', '2{}', '3', '31', '31{', '5', '51-', '4',
        '2/a', '2/zzz,["a"]', '0/a,{', 'x', '51-["a",{"_placeholder":true,'
        '"num":5}]', '61-/a,7[{"_placeholder":true,"num":0}]', '2"a"',
@@ -56,7 +56,11 @@ def strategy(tier):
     arg = S.tree_st(with_bytes=True, max_leaves=3)
     op = st.one_of(
         st.fixed_dictionaries({'op': st.just('connect'), 't': tt,
-                               'ns': st.integers(0, 3)}),
+                               'ns': st.integers(0, 4)}),
+        # the transport is lost while the connect handler of one more
+        # namespace is still deciding; the handler then accepts
+        st.fixed_dictionaries({'op': st.just('lose_in_connect'), 't': tt,
+                               'ns': st.integers(0, 1)}),
         st.fixed_dictionaries({'op': st.just('connect'), 't': tt,
                                'ns': st.integers(0, 1)}),
         st.fixed_dictionaries({'op': st.just('enter'), 'c': ci,
@@ -191,6 +195,11 @@ def _mk_world(case):
     for ns in ('/', '/a'):
         if case['aio']:
             async def on_connect(sid, environ, auth=None):
+                g = st_.get('cgate')
+                if g is not None and not g.done() and \
+                        not getattr(g, 'taken', False):
+                    g.taken = True
+                    await g
                 hit('connect')
         else:
             def on_connect(sid, environ, auth=None):
@@ -228,6 +237,18 @@ def _mk_world(case):
         hit('connect')
         return False
     sio.on('connect', refuse, namespace='/ref')
+
+    # a connect handler that ends the connection it is being asked about
+    # itself, and then returns as if it had accepted it
+    if case['aio']:
+        async def kick(sid, environ, auth=None):
+            hit('connect')
+            await sio.disconnect(sid, namespace='/kick')
+    else:
+        def kick(sid, environ, auth=None):
+            hit('connect')
+            sio.disconnect(sid, namespace='/kick')
+    sio.on('connect', kick, namespace='/kick')
     return w, st_
 
 
@@ -255,6 +276,8 @@ def _generation(case, w, st_):
             ns = NSS[op['ns']]
             if w.client_on(t, ns) is None:
                 ci, pkts = w.connect(t, ns)
+                if ns == '/kick':
+                    flags.add('kicked_by_connect_handler')
                 if ci is not None and (not any(
                         p['type'] == wire.CONNECT for p in pkts) or any(
                         p['type'] == wire.DISCONNECT for p in pkts)):
@@ -278,6 +301,35 @@ def _generation(case, w, st_):
             if w.t_alive[t]:
                 w.close_then(t, op['frames'])
                 flags.add('frames_after_close')
+            continue
+        if k == 'lose_in_connect':
+            ns = NSS[op['ns']]
+            if not w.t_alive[t]:
+                continue
+            if not case['aio'] or w.client_on(t, ns) is not None:
+                w.lose(t, reasons[0])
+                continue
+            loop = w.h.loop
+            eio_sid = w.t[t]
+            sock = w.h.eio.sockets[eio_sid]
+            P = w.h.eio_packet
+            st_['cgate'] = loop.create_future()
+            ctask = loop.spawn(sock.receive(P.Packet(
+                P.MESSAGE, wire.frames(wire.CONNECT, ns)[0])))
+            loop.run_until_idle()
+            parked = not ctask.done()
+            w.lose(t, reasons[0])
+            if not st_['cgate'].done():
+                st_['cgate'].set_result(None)
+            loop.run_until_idle()
+            st_['cgate'] = None
+            if not ctask.done():
+                raise Violation('connect-never-finishes', '')
+            ctask.exception()
+            w.h.swallowed[:] = []
+            if parked:
+                flags.add('transport_lost_while_connect_handler_decides')
+            w.h.settle()
             continue
         if k == 'lose_mid':
             if not w.t_alive[t]:
@@ -508,15 +560,17 @@ def _check_empty(w, what, tolerate_queue_callbacks=False):
     cont = {'environ': sio.environ, '_binary_packet': sio._binary_packet,
             'manager.rooms': m.rooms, 'manager.callbacks': m.callbacks,
             'manager.pending_disconnect': m.pending_disconnect,
-            'eio.sockets': sio.eio.sockets}
+            'eio.sockets': sio.eio.sockets,
+            '_ending': getattr(sio, '_ending', ()),
+            '_deciding': getattr(sio, '_deciding', ())}
     for name, v in cont.items():
         if len(v):
             if name == 'manager.callbacks' and tolerate_queue_callbacks:
                 raise Violation(KF_QUEUE_CB, '%s: an emit with callback to '
                                 'a client that had already gone left %r'
                                 % (what, list(v.items())[:2]))
-            raise Violation('container-not-empty:' + name,
-                            '%s: %r' % (what, list(v.items())[:3]))
+            raise Violation('container-not-empty:' + name, '%s: %r' % (
+                what, list(v.items() if hasattr(v, 'items') else v)[:3]))
 
 
 def check_case(case):
@@ -571,7 +625,8 @@ def check_case(case):
             'partial_binary', 'unanswered_callback', 'fault_connect',
             'fault_event', 'fault_disconnect', 'left_personal_room',
             'late_enter', 'late_emit_cb', 'late_session',
-            'frames_after_close'})
+            'frames_after_close', 'kicked_by_connect_handler',
+            'transport_lost_while_connect_handler_decides'})
         if case.get('disc_closes_own'):
             labels['disc_closes_own'] = True
         return labels
